@@ -15,7 +15,7 @@ from .. import tlc, tlaval, pipeline_common as pc
 
 CLAUSES = ['BoundLevelsSee', 'CreatedFirst', 'CreatedOnce', 'ClosedOnce', 'ClosedLast', 'FnAtMostOnce',
            'FnAfterCall', 'RetObjIffRet', 'ExcObjIffFault', 'DocStrMatch', 'LevelsFollow',
-           'SvcSubApp', 'NoEscape']
+           'SvcSubApp', 'NoForeign', 'NoEscape']
 M1_INV = ['CreatedFirst', 'CreatedOnce', 'ClosedOnce', 'ClosedLast', 'FnAtMostOnce', 'FnAfterCall',
           'RetObjIffRet', 'ExcObjIffFault', 'DocStrMatch', 'LevelsFollow', 'CountersAgree', 'NoEscape']
 
